@@ -20,8 +20,13 @@ RELOADS = ("load_defaults", "load_overrides", "load_collection", "load_shell_env
 class Gen:
     def __init__(self, rng, long=False):
         self.rng = rng
+        # keys with a leading / trailing underscore too: attribute syntax applies to them
+        self.keys = cc.SAFE_KEYS + (["_a", "a_", "_k"] if rng.random() < 0.4 else [])
         self.sch = cc.schema(rng, depth=rng.choice([2, 3, 3]), width=rng.choice([2, 3, 4]),
+                             keys=(self.keys if len(self.keys) == len(cc.SAFE_KEYS)
+                                   else ["_a", "a_", "_k"] + rng.sample(cc.SAFE_KEYS, 5)),
                              kinds=rng.choice(["nbis", "nbislt", "nbislt"]), p_section=0.5)
+        self.files = {}        # location -> suffix, file levels that may be (re)loaded inside the history
         if not any(isinstance(v, dict) for v in self.sch.values()):
             self.sch[rng.choice(["s", "t"])] = {"x": "i", "y": "s"}
         self.handles = {}      # id -> absolute path (alive, in scope)
@@ -75,7 +80,7 @@ class Gen:
             ks = [k for k in ks if not isinstance(par[k], dict)]
         if ks and rng.random() > p_fresh:
             return rng.choice(ks)
-        return rng.choice([k for k in cc.SAFE_KEYS + ["z", "w"] if k not in par] or ["zz"])
+        return rng.choice([k for k in self.keys + ["z", "w"] if k not in par] or ["zz"])
 
     def path_op(self, base=()):
         """a path operation relative to the section ``base``; returns (op, abs effects)"""
@@ -176,6 +181,8 @@ class Gen:
             return ["setdefault", fl, kp, k, {"d": v}]
         if kind == "update":
             kvs = []
+            if rng.random() < 0.08:       # update() / update({}) / update([]): nothing happens
+                return ["update", fl, kp, [], rng.choice(["none", "dict", "pairs", "gen"])]
             for _ in range(rng.randint(1, 3)):
                 k = self.pick_key(abs_kp, want_leaf=(True if rng.random() < 0.92 else None), p_fresh=0.3)
                 if k in [x[0] for x in kvs]:
@@ -184,7 +191,8 @@ class Gen:
                 if isd:
                     self.kill(abs_kp + (k,), True)
                 kvs.append([k, v])
-            style = rng.choice(["dict", "kwargs", "pairs"])
+            # a dict, keyword arguments, a list of pairs, or a ONE-SHOT iterable of pairs
+            style = rng.choice(["dict", "kwargs", "pairs", "gen", "zip", "iter"])
             return ["update", fl, kp, kvs, style]
         if kind == "get":
             return ["get", fl, kp, self.pick_key(abs_kp, p_fresh=0.15)]
@@ -194,16 +202,65 @@ class Gen:
             return ["keys", fl, kp, rng.choice(["keys", "iter"])]
         return [kind, fl, kp]
 
-    def reload(self):
+    def settle(self):
+        """a call that always merges"""
         rng = self.rng
         r = rng.random()
-        if r < 0.35:
-            return ["load_defaults", self.inst()]
+        if r < 0.4:
+            return ["merge"]
         if r < 0.55:
+            return ["load_defaults", self.inst()]
+        if r < 0.65:
             return ["load_overrides", self.inst(rng.choice([0.1, 0.3]))]
         if r < 0.8:
             return ["load_collection", self.inst()]
         return ["load_shell_env", cc.env_for(rng, self.sch, rng.choice([0.2, 0.5]), p_bad=0.0)]
+
+    def reload(self):
+        """one or more calls: a plain reload; or merge=False loads / re-pointings
+        followed (mostly) by a call that merges; or a reload of a file level"""
+        rng = self.rng
+        r = rng.random()
+        if r < 0.27:
+            return [["load_defaults", self.inst()]]
+        if r < 0.42:
+            return [["load_overrides", self.inst(rng.choice([0.1, 0.3]))]]
+        if r < 0.60:
+            return [["load_collection", self.inst()]]
+        if r < 0.75:
+            return [["load_shell_env", cc.env_for(rng, self.sch, rng.choice([0.2, 0.5]), p_bad=0.0)]]
+        if r < 0.87:
+            # merge=False: not visible until something merges
+            out = []
+            for _ in range(rng.randint(1, 2)):
+                k = rng.random()
+                if k < 0.35:
+                    out.append(["load_defaults_d", self.inst()])
+                elif k < 0.55:
+                    out.append(["load_overrides_d", self.inst(rng.choice([0.1, 0.3]))])
+                elif k < 0.8:
+                    out.append(["load_collection_d", self.inst()])
+                else:
+                    out.append([rng.choice(["load_system_d", "load_user_d", "load_project_d", "load_runtime_d"])])
+            if rng.random() < 0.85:
+                out.append(self.settle())
+            return out
+        if r < 0.94 and self.files:
+            # a file level inside the history: re-point, load again, merge
+            if "projB" in self.files and rng.random() < 0.5:
+                out = [["set_project_location", rng.choice(["projB", "projA", None])]]
+                if rng.random() < 0.8:
+                    out.append([rng.choice(["load_project_d", "load_project"])])
+            elif "rtB" in self.files:
+                out = [["set_runtime_path", rng.choice([["rtB", self.files["rtB"]], None])]]
+                if rng.random() < 0.8:
+                    out.append([rng.choice(["load_runtime_d", "load_runtime"])])
+            else:
+                return [[rng.choice(["load_system", "load_user", "load_project", "load_runtime"])]]
+            if rng.random() < 0.85:
+                out.append(self.settle())
+            return out
+        return [[rng.choice(["load_system", "load_user", "load_project", "load_runtime", "merge"])]]
 
     def case(self):
         rng = self.rng
@@ -225,6 +282,14 @@ class Gen:
             ops.append(["load_runtime"])
         if rng.random() < 0.3:
             ops.append(["load_collection", self.inst()])
+        if rng.random() < 0.3:        # second locations, for re-pointing inside the history
+            self.files["projB"] = rng.choice(cc.SUFFIXES)
+            fs.append(["projB", self.files["projB"], {"data": self.inst(kinds="nbisl")}])
+        if rng.random() < 0.25:
+            self.files["rtB"] = rng.choice(cc.SUFFIXES)
+            fs.append(["rtB", self.files["rtB"], {"data": self.inst(0.4, kinds="nbisl")}])
+        for loc, sfx, _ in fs:
+            self.files.setdefault(loc, sfx)
         n = rng.randint(1, 8) if not self.long else rng.randint(6, 25)
         hold_rate = rng.choice([0.0, 0.12, 0.2])
         if rng.random() < 0.03:
@@ -251,10 +316,12 @@ class Gen:
                 self.handles[h] = tuple(p)
                 ops.append(["hold", h, rng.choice(["item", "attr"]), list(p)])
             elif r < hold_rate + 0.13:
-                ops.append(self.reload())
+                ops.extend(self.reload())
             elif r < hold_rate + 0.16:
                 self.handles = {}
-                ops.append(["clone", None])
+                # clone(), or clone(into=<subclass with its own global defaults>): judged by C11,
+                # the history goes on with the clone
+                ops.append(["clone", None if rng.random() < 0.75 else self.inst(0.3)])
             elif self.handles and rng.random() < 0.45:
                 h = rng.choice(list(self.handles))
                 hp = self.handles[h]
@@ -483,7 +550,15 @@ def diagnose(case, obs):
             if evs and name != "rawset":
                 remerged()
             continue
-        if name.startswith("load_") or name.startswith("set_") or name == "merge":
+        if name.endswith("_d") or name.startswith("set_"):
+            # merge=False / re-pointing: recorded, visible at the next call that merges
+            loads.append(op)
+            if "err" not in out and view != st:
+                return i, "view", {"op": op, "via": None, "dict_writes": list(dict_writes),
+                                   "raw_writes": list(raw_writes), "lost_writes": list(lost_writes),
+                                   "stale_paths": list(stale_paths), "diff": diff_paths(view, st)}
+            continue
+        if name.startswith("load_") or name == "merge":
             if "err" in out:
                 return i, "reload-error", {"op": op, "dict_writes": list(dict_writes), "raw_writes": list(raw_writes),
                                            "lost_writes": list(lost_writes), "stale_paths": list(stale_paths), "diff": []}
@@ -548,7 +623,10 @@ class C06(Prop):
             "consistent; histories of 1-25 operations over all mutators and readers, item and attribute "
             "syntax (mixed inside one navigation), through the root or through 1-3 held nested proxies "
             "fetched earlier (used after other writes/reloads re-merged the root), interleaved with "
-            "load_defaults/overrides/collection/shell_env and clone; reads also through .get(k[,d]), items(), "
+            "load_defaults/overrides/collection/shell_env, merge=False loads and re-pointings of the project / "
+            "runtime location followed by merge() or a reload, reloads of file levels, clone() and clone(into=...); "
+            "keys with a leading/trailing underscore (_a, a_) in 40% of the cases; update() with a dict, keyword "
+            "arguments, a list of pairs, one-shot iterables (generator, zip, iter) and no/empty argument; reads also through .get(k[,d]), items(), "
             "values(), iter and ==; pop(k, None); update(mapping, **kw), update(<nested proxy>) and edits "
             "through the raw dict handed out by get()/setdefault() at a low rate (known findings F-C06g/h); "
             "list and tuple leaves in levels and writes; 3% of the cases walk into the F-C06b corner on "
@@ -714,6 +792,40 @@ class C06(Prop):
             if all(reasons):
                 return reasons[0]
         return None
+
+    def extra_checks(self, tier, seed):
+        return [self.check_uncopyable()]
+
+    def check_uncopyable(self):
+        """F-C06i: a written value copy.copy cannot copy raises from merge() after it
+        was recorded; every later write / reload raises too."""
+        import threading
+        res = {"name": "uncopyable-value", "evaluations": 0, "failures": [],
+               "note": "witness of the known finding F-C06i (values outside the modelled leaf kinds)"}
+        case = {"fs": [], "init": {"defaults": {"k": 1}, "lazy": True}, "ops": []}
+        s = cc.Session(case)
+        try:
+            cfg = s.construct()
+            steps = []
+            for what, f in (("c.lock = threading.Lock()", lambda: cfg.__setattr__("lock", threading.Lock())),
+                            ("c.y = 1", lambda: cfg.__setitem__("y", 1)),
+                            ("c.load_defaults({})", lambda: cfg.load_defaults({}))):
+                try:
+                    f()
+                    steps.append((what, None))
+                except Exception as e:
+                    steps.append((what, type(e).__name__))
+            res["evaluations"] += 1
+            bad = [w for w, e in steps if e is not None]
+            if bad:
+                known = [e for _, e in steps] == ["TypeError"] * 3
+                f = {"case": {"steps": steps}, "what": "raised: %r" % (steps,)}
+                if known:
+                    f["finding"] = "F-C06i"
+                res["failures"].append(f)
+        finally:
+            s.close()
+        return [res][0]
 
     def _live_before(self, case, obs, i):
         """the nested-dict reference right before step i (views agree up to there)"""
